@@ -302,6 +302,13 @@ def check(case, obs):
                 p3 = list(chans)[::-1].index(ch)
                 obs.claim('transform_fxn', not raised(t3) and bool(np.allclose(np.asarray(t3)[:, p3], out.fitting['std_crv'][c](col), rtol=1e-12)),
                           lambda: 'transform_fxn applied to the selection %r (channel %r by name): %r' % (list(chans)[::-1], ch, t3 if raised(t3) else 'not converted'))
+    if nch > 1:
+        # several channels at once, listed in another order than they were calibrated in
+        rv = list(chans)[::-1]
+        tm = call(out.transform_fxn, d, rv)
+        obs.claim('transform_fxn', not raised(tm) and all(
+            bool(np.allclose(np.asarray(tm)[:, 2 + c], out.fitting['std_crv'][c](Xd[:, 2 + c]), rtol=1e-12)) for c in range(nch)),
+            lambda: 'transform_fxn(channels=%r): a channel was not converted with its own curve (%r)' % (rv, tm if raised(tm) else ''))
     t_first = [np.asarray(out.fitting['std_crv'][c](Xd[:, 2 + c])).copy() for c in range(nch)]
     # ---- reproducible for a fixed seed
     out2 = run(d, chans, mef_values)
